@@ -8,6 +8,10 @@ R01.2 the realisation owners keep that guard
 R01.3 the two implementations of the slice algebra agree (twin diff)
 R01.4 coordinate-space typing inside the view classes: parent indices only index
       parent strings
+
+Added in build round 2 (see DESIGN.md section 3, round-2 table):
+R01.5 the read / iterate / measure methods that exist in both sequence implementations are equal after normalisation (same reasoning and stated limit as ...
+R01.6 a view built over a realised string of the receiver starts a new, forward coordinate system: it may be given the receiver's own parent coordinates ...
 """
 
 from __future__ import annotations
